@@ -90,13 +90,9 @@ def t1(ctx, rep, T):
         bad = [c for c in f['calls'] if c.get('f') == 'format_type' and not (len(c.get('args', [])) == 2 and vt.show(vt.strip(c['args'][1])) == gparam)]
         rep.check(not bad, 'T1', f'{be}:generic-context', 'children formatted with the incoming generic context', f"{be}: format_special_type formats a child type with generic context `{vt.show(bad[0]['args'][1])[:40] if bad and len(bad[0].get('args', [])) > 1 else '?'}` instead of the incoming `{gparam}`", {'file': f['file'], 'line': bad[0]['line'] if bad else f['line']})
         # each child result reaches the returned template exactly once (TS arrays repeat by length), Vec == Slice
-        shapes = {}
-        for m in f['matches']:
-            for a in m['arms']:
-                for v in a['variants']:
-                    if v.startswith('SpecialRustType::') and a['value'].get('k') != 'big':
-                        R = guards.Renderer(T, {f'{struct}.no_pointer_slice': False}, type_hook=lambda c: ['⟦' + vt.show(c['args'][0])[-12:] + '⟧'])
-                        shapes[v.split('::')[1]] = sorted(set(R.render(a['value'])))
+        # what the function returns per variant (specialisation of its exits, vlib/special.py): independent of whether the
+        # result is an arm value, an early return through a helper, or a string accumulated with push_str
+        shapes = variant_shapes(ctx, T, f, struct, type_hook=lambda c: ['⟦' + vt.show(c['args'][0])[-12:] + '⟧'], asg={f'{struct}.no_pointer_slice': False})
         for name, n_child in (('Vec', 1), ('Slice', 1), ('Option', 1), ('HashMap', 2), ('Array', 1)):
             outs = shapes.get(name)
             if outs is None:
@@ -108,6 +104,20 @@ def t1(ctx, rep, T):
         if 'Vec' in shapes and 'Slice' in shapes:
             norm = lambda outs: sorted(re.sub(r'⟦[^⟧]*⟧', 'T', o) for o in outs)
             rep.check(norm(shapes['Vec']) == norm(shapes['Slice']), 'T1', f'{be}:sequence-constructor', f"Vec and slice both → {norm(shapes['Vec'])}", f"{be}: Vec renders as {norm(shapes['Vec'])} but &[T] as {norm(shapes['Slice'])} — sequences must share one target constructor", {'file': f['file'], 'line': f['line']})
+
+
+def variant_shapes(ctx, T, f, struct, type_hook, asg=None):
+    """{variant: sorted rendered results} of a format_special_type implementation; the type-map early return (`⟨get:..⟩`) and
+    error results are left out."""
+    from .. import special
+    out = {}
+    for V, vals in special.per_variant(ctx, f, 'SpecialRustType').items():
+        R = guards.Renderer(T, dict(asg or {}), type_hook=type_hook)
+        outs = sorted({o for v in vals for o in R.render(v)})
+        outs = [o for o in outs if '⟨get:' not in o and '⟨Err' not in o and '⟨mapped' not in o]
+        if outs:
+            out[V] = outs
+    return out
 
 
 def shape_test_variants(ctx, t, payload_ok):
@@ -140,65 +150,75 @@ def t9(ctx, rep, T):
     contain a shape test of the inner type, and every variant that test accepts must render — in this backend's own arm for
     that variant — as a nullable form."""
     NULLABLE_PREFIX = {'go': ('[]', 'map[', '*')}
+    from .. import special
     for be, (struct, file) in emit.BACKENDS.items():
         f = ctx.fn(f'{struct}::format_special_type', file=file)
-        arms = {v.split('::')[1]: a for m in f['matches'] for a in m['arms'] for v in a['variants'] if v.startswith('SpecialRustType::')}
-        oa = arms.get('Option')
-        if oa is None or oa['value'].get('k') == 'big':
-            continue
+        pv = special.per_variant(ctx, f, 'SpecialRustType')
+        site = {'file': f['file'], 'line': f['line']}
+        shapes = variant_shapes(ctx, T, f, struct, type_hook=lambda c_: ['T'])
 
         def payload_ok(x):
             x = vt.unvar(x)
             while isinstance(x, dict) and x.get('k') in ('ref', 'deref', 'paren') or (isinstance(x, dict) and x.get('k') == 'call' and x.get('f') in ('as_ref', 'deref', 'borrow') and x.get('recv') is not None):
                 x = vt.unvar(x.get('v') if x.get('k') != 'call' else x.get('recv'))
             return isinstance(x, dict) and x.get('k') == 'payload' and str(x.get('variant', '')).endswith('SpecialRustType::Option')
-        for x in vt.walk(oa['value']):
-            if x.get('k') != 'cond':
-                continue
-            tl, el = vt.unvar(x.get('t')), vt.unvar(x.get('e'))
-            if not (isinstance(tl, dict) and isinstance(el, dict) and tl.get('k') == 'lit' and el.get('k') == 'lit'):
-                continue
-            empty_is_then = tl.get('v') == '' and el.get('v') != ''
-            empty_is_else = el.get('v') == '' and tl.get('v') != ''
-            if not (empty_is_then or empty_is_else):
-                continue
-            site = {'file': f['file'], 'line': oa['line']}
-            c = vt.unvar(x.get('c'))
-            neg = empty_is_else
-            terms = []
+        seen = set()
+        for val in pv.get('Option', []):
+            for x in vt.walk(val):
+                if x.get('k') != 'cond':
+                    continue
+                R = guards.Renderer(T, {}, type_hook=lambda c_: ['T'])
+                rt, re_ = sorted(set(R.render(x.get('t')))), sorted(set(R.render(x.get('e'))))
+                if rt == re_ or len(rt) != 1 or len(re_) != 1:
+                    continue
+                # the two branches differ by a marker: the shorter rendering is the marker-less one
+                short_is_then = len(rt[0]) < len(re_[0])
+                longer, shorter = (re_[0], rt[0]) if short_is_then else (rt[0], re_[0])
+                if not (longer.endswith(shorter) or longer.startswith(shorter)):
+                    continue
+                marker = longer[:len(longer) - len(shorter)] if longer.endswith(shorter) else longer[len(shorter):]
+                c = vt.unvar(x.get('c'))
+                want = short_is_then       # marker dropped when c == want
+                while isinstance(c, dict) and ((c.get('k') == 'op' and c.get('op') == '!' and len(c.get('args', [])) == 1) or c.get('k') == 'paren'):
+                    if c.get('k') == 'op':
+                        want = not want
+                        c = vt.unvar(c['args'][0])
+                    else:
+                        c = vt.unvar(c.get('v'))
+                k = vt.ckey(c) + str(want)
+                if k in seen:
+                    continue
+                seen.add(k)
+                if not want:
+                    rep.fail('T9', f'{be}:option-marker-dropped', f"{be}: Option<T> is rendered without its marker `{marker}` when `{vt.show(c)[:70]}` is false — not a restriction of the inner type to self-nullable forms", site)
+                    continue
+                terms = []
 
-            def conj(v):
-                v = vt.unvar(v)
-                if isinstance(v, dict) and v.get('k') == 'op' and v.get('op') == '&&':
-                    for a_ in v['args']:
-                        conj(a_)
-                elif isinstance(v, dict) and v.get('k') == 'paren':
-                    conj(v.get('v'))
-                else:
-                    terms.append(v)
-            conj(c)
-            if neg:
-                rep.fail('T9', f'{be}:option-marker-dropped', f"{be}: the Option arm omits its marker `{tl.get('v')}` when `{vt.show(c)[:70]}` is false — shape not modelled as a restriction of the inner type", site)
-                continue
-            accepted = None
-            for t in terms:
-                vs = shape_test_variants(ctx, t, payload_ok)
-                if vs is not None:
-                    accepted = vs if accepted is None else (accepted & vs)
-            if accepted is None:
-                rep.fail('T9', f'{be}:option-marker-dropped', f"{be}: the Option arm omits its marker `{el.get('v')}` under `{vt.show(c)[:80]}`, which does not restrict the inner type: Option<T> and T then translate to the same target type for every T (the Option layer is lost)", site)
-                continue
-            bad = []
-            for v in sorted(accepted):
-                va = arms.get(v)
-                outs = []
-                if va is not None and va['value'].get('k') != 'big':
-                    R = guards.Renderer(T, {}, type_hook=lambda c_: ['T'])
-                    outs = sorted(set(R.render(va['value'])))
-                if not outs or not all(o.startswith(NULLABLE_PREFIX.get(be, ())) for o in outs):
-                    bad.append((v, outs[:2]))
-            b0 = bad[0][0] if bad else ''
-            rep.check(not bad, 'T9', f'{be}:option-marker-dropped', f'marker omitted only for {sorted(accepted)}, all nullable by themselves', f"{be}: the Option arm omits its marker `{el.get('v')}` for inner types {sorted(accepted)}, but {', '.join(f'{v} renders as {o}' for v, o in bad)} — not a nullable form in the target, so Option<{b0}<..>> and {b0}<..> become the same type and the Option layer is lost", site)
+                def conj(v):
+                    v = vt.unvar(v)
+                    if isinstance(v, dict) and v.get('k') == 'op' and v.get('op') == '&&':
+                        for a_ in v['args']:
+                            conj(a_)
+                    elif isinstance(v, dict) and v.get('k') == 'paren':
+                        conj(v.get('v'))
+                    else:
+                        terms.append(v)
+                conj(c)
+                accepted = None
+                for t in terms:
+                    vs = shape_test_variants(ctx, t, payload_ok)
+                    if vs is not None:
+                        accepted = vs if accepted is None else (accepted & vs)
+                if accepted is None:
+                    rep.fail('T9', f'{be}:option-marker-dropped', f"{be}: Option<T> is rendered without its marker `{marker}` under `{vt.show(c)[:80]}`, which does not restrict the inner type: Option<T> and T then translate to the same target type for every T (the Option layer is lost)", site)
+                    continue
+                bad = []
+                for v in sorted(accepted):
+                    outs = shapes.get(v, [])
+                    if not outs or not all(o.startswith(NULLABLE_PREFIX.get(be, ())) for o in outs):
+                        bad.append((v, outs[:2]))
+                b0 = bad[0][0] if bad else ''
+                rep.check(not bad, 'T9', f'{be}:option-marker-dropped', f'marker omitted only for {sorted(accepted)}, all nullable by themselves', f"{be}: Option<T> is rendered without its marker `{marker}` for inner types {sorted(accepted)}, but {', '.join(f'{v} renders as {o}' for v, o in bad)} — not a nullable form in the target, so Option<{b0}<..>> and {b0}<..> become the same type and the Option layer is lost", site)
 
 
 def t7_unchanged(ctx, rep):
@@ -424,6 +444,14 @@ def t6(ctx, rep, T):
                     lit = '<rejected>'
                 for p in prim:
                     table[p] = (lit, a['line'])
+        shapes = variant_shapes(ctx, T, f, struct, type_hook=lambda c_: ['T'])
+        for p in rust:
+            if p not in table or table[p][0] is None:
+                outs = shapes.get(p)
+                if outs and len(outs) == 1 and '⟨' not in outs[0]:
+                    table[p] = (outs[0], f['line'])
+                elif p not in table and not outs:
+                    table[p] = ('<rejected>', f['line'])
         rep.floor('T6', f'{be}: primitive arms', len(table), 15)
         for p, (lit, line) in sorted(table.items()):
             key = f'{be}:{p}'
